@@ -129,8 +129,8 @@ end PhyPort
 
 namespace PortMod
 def zero : V := .obj "PortMod" [Header.zero, .num 0, .bytes [], .bytes [], .bytes [], .num 0, .num 0, .num 0, .bytes []]
-/-- NewPortMod(port): the header is NOT drawn from the generator (version 0, length 0, xid 0) -/
-def new (port : Nat) : V := .obj "PortMod" [msgHdrType Gen.openflow13.Type_PortMod Header.zero, V.u32 (n32 port), .bytes (zeros 4),
+/-- NewPortMod(port): header from NewOfp13Header() -/
+def new (port : Nat) : V := .obj "PortMod" [msgOfpHeader Gen.openflow13.Type_PortMod, V.u32 (n32 port), .bytes (zeros 4),
   .bytes (zeros Gen.openflow13.ETH_ALEN), .bytes (zeros 2), .num 0, .num 0, .num 0, .bytes (zeros 4)]
 
 def lenM (v : V) : R (UInt16 × V) := same (8 + 4 + 4 + n16 Gen.openflow13.ETH_ALEN + 2 + 12 + 4) v
